@@ -13,6 +13,19 @@ CLAIMED = {
     },
 }
 
+COMMON_NOTE = "Trusted: Coq 8.16.1 kernel (incl. vm_compute); extraction (ExtrOcamlBasic only) + OCaml driver + Rust harness + Python differ/oracle (correspondence); the hand-written model being a faithful reading of the Rust sources and of the modelled externals (httparse, http, url, std), validated -- not proved -- by the correspondence check on generated scripts each run; tools/source_facts.py; 64-bit usize. All property theorems are closed under the global context (no axioms)."
+TECH = "Coq proof over an executable model + model/implementation correspondence check"
+
+CLAIMED["C08"] = {
+    "text": "Machine-checked proof: one read on a Content-Length body moves min(input, output space, remaining) bytes verbatim; for every arrival/output-size schedule of any length over any stream (body followed by arbitrary bytes) consumed+remaining=N (never a byte beyond N) and the delivered bytes are exactly the consumed prefix; complete iff remaining=0; close-delimited bodies pass every offered byte through, may always proceed, and entering their body state records the close reason (must-close). Correspondence + oracle on generated streams with trailing bytes of a next response.",
+    "design_ref": "DESIGN.md section 7, C08", "note": COMMON_NOTE, "technique": TECH}
+CLAIMED["C06"] = {
+    "text": "Machine-checked proof that the model's body-mode decision equals the rule list of the statement (transcribed as rfc_body_mode) for every method class, every status, both versions and every Content-Length/Transfer-Encoding value, that the flow applies it to the head it returns, and that the successor state is body / redirect / cleanup as stated. The decision grid (9 methods x boundary statuses (thorough: every status 101..999) x versions x 10 Content-Length x 8 Transfer-Encoding classes) is enumerated completely against the real crate, the model and a Python transcription of the statement.",
+    "design_ref": "DESIGN.md section 7, C06", "note": COMMON_NOTE, "technique": TECH + " (exhaustive decision grid)"}
+CLAIMED["C15"] = {
+    "text": "Machine-checked proof that as_new_flow selects the method by the table of the statement (transcribed as redirect_method) for every status and all nine methods, returns no flow and changes nothing when the redirect is not followed, that the redirect state is entered exactly for 3xx other than 304 on both paths (with and without body) and reports the received status. The whole domain (9 methods x 300..399 x 2 policies x with/without body) is enumerated against the real crate in both tiers.",
+    "design_ref": "DESIGN.md section 7, C15", "note": COMMON_NOTE, "technique": TECH + " (exhaustive domain)"}
+
 NOT_YET = {}
 ALL = ["C%02d" % i for i in range(1, 21)]
 
